@@ -109,8 +109,52 @@ fn run_large(c: &Value) -> CaseResult {
     Ok(())
 }
 
+/// many formulas compiled one after the other in ONE builder (per node store), each conditioned -- the diagram and its
+/// negation -- on every literal: later requests meet nodes stored by earlier ones
+fn run_batch_on<'a, B: DecisionNNFBuilder<'a> + TopDownBuilder<'a, BddPtr<'a>>>(which: &str, b: &'a B, c: &Value, nv: usize) -> CaseResult {
+    let nm = 1usize << nv;
+    let asg = |m: usize| -> Vec<bool> { (0..nv).map(|i| (m >> i) & 1 == 1).collect() };
+    for (k, f) in c["cnfs"].as_array().cloned().unwrap_or_default().iter().enumerate() {
+        let clauses: Vec<Vec<Literal>> = f.as_array().map(|cs| cs.iter().map(|cl| cl.as_array().map(|ls| ls.iter().map(|l| {
+            let x = l.as_i64().unwrap_or(1);
+            Literal::new(VarLabel::new((x.unsigned_abs() - 1) as u64), x > 0)
+        }).collect()).unwrap_or_default()).collect()).unwrap_or_default();
+        let cnf = Cnf::new(&clauses);
+        if cnf.num_vars() != nv { continue; }
+        let d = b.compile_cnf_topdown(&cnf);
+        let want: Vec<bool> = (0..nm).map(|m| { let a = asg(m); clauses.iter().all(|cl| cl.iter().any(|l| a[l.label().value() as usize] == l.polarity())) }).collect();
+        for m in 0..nm { if eval(d, &asg(m)) != want[m] { return Err(format!("{which} formula {k} of the batch {f}: diagram is {} on {:?}, the CNF is {}", eval(d, &asg(m)), asg(m), want[m])); } }
+        if d.is_false() != !want.iter().any(|x| *x) { return Err(format!("{which} formula {k} of the batch {f}: false constant <=> unsatisfiable fails")); }
+        decides_once(d, &mut vec![]).map_err(|e| format!("{which} formula {k} of the batch {f}: {e}"))?;
+        for neg in [false, true] {
+            let p = if neg { d.neg() } else { d };
+            for l in 0..nv { for v in [true, false] {
+                let r = b.condition(p, VarLabel::new(l as u64), v);
+                for m in 0..nm {
+                    let m2 = if v { m | (1 << l) } else { m & !(1 << l) };
+                    if eval(r, &asg(m)) != (want[m2] != neg) {
+                        return Err(format!("{which} formula {k} of the batch {f}: condition({}diagram, x{l}={v}) is {} on {:?}; the restricted function is {}", if neg { "negated " } else { "" }, eval(r, &asg(m)), asg(m), want[m2] != neg));
+                    }
+                }
+            } }
+        }
+    }
+    Ok(())
+}
+fn run_batch(c: &Value) -> CaseResult {
+    let order: Vec<VarLabel> = c["order"].as_array().map(|a| a.iter().map(|v| VarLabel::new(v.as_u64().unwrap_or(0))).collect()).unwrap_or_default();
+    let nv = order.len();
+    let b = StandardDecisionNNFBuilder::new(VarOrder::new(&order));
+    run_batch_on("standard store:", &b, c, nv)?;
+    let b2 = SemanticDecisionNNFBuilder::<{ primes::U64_LARGEST }>::new(VarOrder::new(&order));
+    run_batch_on("semantic store:", &b2, c, nv)?;
+    let b3 = SemanticDecisionNNFBuilder::<{ primes::U32_SMALL }>::new(VarOrder::new(&order));
+    run_batch_on("semantic store (U32_SMALL):", &b3, c, nv)
+}
+
 pub fn run(c: &Value) -> CaseResult {
     if c["case"].as_str() == Some("dnnf_large") { return run_large(c); }
+    if c["case"].as_str() == Some("dnnf_batch") { return run_batch(c); }
     let nv = c["nvars"].as_u64().unwrap_or(3) as usize;
     let clauses: Vec<Vec<Literal>> = c["cnf"].as_array().map(|cs| cs.iter().map(|cl| cl.as_array().map(|ls| ls.iter().map(|l| {
         let x = l.as_i64().unwrap_or(1);
@@ -180,6 +224,18 @@ pub fn candidates(seed: u64) -> Vec<Value> {
         let mut order: Vec<u64> = (0..nv).collect();
         for i in (1..nv as usize).rev() { let j = nx(i as u64 + 1) as usize; order.swap(i, j); }
         out.push(json!({"case": "dnnf_cond", "nvars": nv, "cnf": cnf, "order": order, "neg": nx(2) == 0, "lbl": nx(nv), "val": nx(2) == 0}));
+    }
+    // batches: 60 formulas over 3-5 variables compiled and conditioned in one builder per node store
+    for _ in 0..40 {
+        let nv = 3 + nx(3);
+        let mut order: Vec<u64> = (0..nv).collect();
+        for i in (1..nv as usize).rev() { let j = nx(i as u64 + 1) as usize; order.swap(i, j); }
+        let cnfs: Vec<Vec<Vec<i64>>> = (0..60).map(|_| {
+            let mut f: Vec<Vec<i64>> = (0..1 + nx(6)).map(|_| (0..1 + nx(3)).map(|_| { let v = 1 + nx(nv) as i64; if nx(2) == 0 { v } else { -v } }).collect()).collect();
+            f.push(vec![nv as i64, if nx(2) == 0 { 1 } else { -1 }]);
+            f
+        }).collect();
+        out.push(json!({"case": "dnnf_batch", "order": order, "cnfs": cnfs}));
     }
     // two large random 3-CNFs (40 variables, 70 clauses: ~10^5 component-cache states), checked by sampling
     out.push(json!({"case": "dnnf_large", "nvars": 40, "nclauses": 70, "seed": 1}));
